@@ -10,7 +10,8 @@ RULE = ("records = diff/interp/min/max/cumsum calls (1-2 axes, padded and unpadd
         "grid datasets with random coordinates: dimension coordinates for a random subset of dimensions (possibly none), "
         "0-D, 1-D and 2-D non-dimension coordinates on any mix of positions, each with its own values and attributes; "
         "keep_coords on/off; input carrying the dataset's coordinates, none, or foreign labels; non-trivial = distinct "
-        "(coordinate layout, op, shift, keep_coords, input labelling)")
+        "(coordinate layout, op, shift, keep_coords, input labelling)"
+        ' Also: dask-backed inputs, legal but falsy names ("" and 0).')
 
 
 def gen_case(rng, cid):
